@@ -529,7 +529,8 @@ impl<S: Sample> TransformedModularSubimage<'_, S> {
                 }
 
                 rle_state.check_error()?;
-                // Prefix code doesn't have checksum
+                // RLE mode is also available for ANS streams, which have checksum
+                decoder.finalize()?;
                 return Ok(());
             }
         }
